@@ -266,6 +266,11 @@ def wire_edits(doc, rng, limit):
     for pth in pick("literal"):
         ed("literal.property appended", lambda d, pth=pth: at(d, pth)["value"]["properties"].append({"name": "zzNew", "type": {"kind": "base", "name": "string"}}))
         ed("literal.property dropped", lambda d, pth=pth: at(d, pth)["value"]["properties"].pop() if at(d, pth)["value"]["properties"] else (_ for _ in ()).throw(KeyError()))
+    with_parents = [i for i in range(len(S)) if S[i].get("extends") or S[i].get("mixins")]
+    for i in sorted(rng.sample(with_parents, min(limit * 2, len(with_parents)))):
+        if True:
+            ed("structure.parent moved from extends to mixins", lambda d, i=i: d["structures"][i].setdefault("mixins", []).insert(0, d["structures"][i]["extends"].pop()))
+            ed("structure.parent moved from mixins to extends", lambda d, i=i: d["structures"][i].setdefault("extends", []).append(d["structures"][i]["mixins"].pop(0)))
     for i in idxs(S):
         ed("structure.extends dropped", lambda d, i=i: d["structures"][i]["extends"].pop())
         ed("structure.mixins dropped", lambda d, i=i: d["structures"][i]["mixins"].pop())
@@ -522,7 +527,7 @@ def main(tier):
                 os.makedirs(os.path.dirname(p), exist_ok=True)
                 open(p, "w").write(c)
             before = genrun.tree_hashes(outdir)
-            res = genrun.run_generator(pl, root, models=(mp if isinstance(mp, list) else [mp]), outdir=outdir, tag="g%d%s" % (k, pl))
+            res = genrun.run_generator(pl, root, models=(mp if isinstance(mp, list) else [mp]), outdir=outdir, tag="g%d%s" % (k, pl), optimize=(k % 3 == 1))
             after = genrun.tree_hashes(outdir)
             return job, res, before, after
 
